@@ -569,9 +569,15 @@ class OptionsParser:
 
         for idx, ch in enumerate(line):
             if escaped:
-                option += ch if ch == '"' else '\\' + ch
                 escaped = False
-            elif ch == '\\':
+
+                if ch == '"':
+                    option += ch
+                    continue
+
+                option += '\\'
+
+            if ch == '\\':
                 escaped = True
             elif ch == '"':
                 quoted = not quoted
